@@ -107,6 +107,44 @@ def check(ctx):
         r1.bad(V(r1.id, f.id, ident,
                  "iteration over %s is consumed by `%s`: %s — the result order depends on the hash seed / directory order"
                  % (s.source, s.call.name, s.why), s.call.file, s.call.line))
+    # the worklist justification above ("popped until empty; results only enter maps/sets") holds only while what is *recorded* for an item does not
+    # depend on which items were visited before it: a set that is shrunk in place by a predicate reading the visited set (or the worklist) and then
+    # handed on makes the recorded content a function of the hash-seeded visiting order.  Filtering what is *queued* by the visited set is the
+    # worklist algorithm itself and stays accepted (a conditional push, or `worklist.extend(set.iter().filter(..))`).
+    SHRINKERS = {"retain", "retain_mut", "extract_if", "drain_filter"}
+    for fid in sorted(reach):
+        f = P.fns[fid]
+        if "{closure" in fid or "{promoted" in fid:
+            continue
+        wl = worklist_locals(f)
+        if not wl:
+            continue
+        visited = set()
+        for c in f.calls:
+            if c.name == "insert" and "HashSet" in (c.path + (c.self_ty or "")) and c.args and c.bb in f.reach_blocks:
+                b_ = _base(f, c.args[0])
+                if b_ is not None and b_ > f.arg_count:
+                    visited.add(b_)
+        state = visited | wl
+        n_sh = 0
+        for c in f.calls:
+            if c.name not in SHRINKERS or c.bb not in f.reach_blocks or len(c.args) < 2:
+                continue
+            recv = _base(f, c.args[0])
+            if recv in wl:
+                continue
+            n_sh += 1
+            o = f.origin(c.args[1])
+            caps = o[1].get("ops", []) if o[0] == "aggr" and isinstance(o[1], dict) else []
+            reads_state = sorted(f.varnames.get(_base(f, a_), "_%s" % _base(f, a_)) for a_ in caps if _base(f, a_) in state and _base(f, a_) != recv)
+            if reads_state:
+                r1.bad(V(r1.id, fid, "order-dependent-shrink:%s:%s" % (c.name, ",".join(reads_state)),
+                         "%s: a set is narrowed in place by a predicate that reads %s (state that depends on the order in which the worklist was served) and is used "
+                         "afterwards: what is recorded for an item depends on the hash-seeded visiting order" % (short_path(fid), reads_state), c.file, c.line))
+            else:
+                r1.ok("%s: %s does not read the visited state" % (short_path(fid), c.name))
+        if not n_sh:
+            r1.ok("%s: worklist function — nothing but the queue is filtered by the visited state" % short_path(fid))
     # dedup removes *adjacent* duplicates only: on data that was not sorted first, what survives depends on the discovery order of the items
     # (moving an item between files changes the set of declarations)
     for fid in sorted(reach):
@@ -234,6 +272,16 @@ def check(ctx):
                 if not mentioned:
                     r3.ok("%s copies %s.line_number into %s, which no template prints" % (short_path(fid), short_path(adt), sorted(n for _, n in tg)))
                     continue
+            # a position that only feeds the regeneration digest: everything it flows into inside this function ends in the SHA-256 of the cache
+            # record (which decides whether to regenerate and is no generated text), not in the return value, a file or a template context
+            def _is_read(pl_, _adt=adt):
+                return any(pj_.get("k") == "field" and pj_.get("name") == "line_number" and pj_.get("adt") == _adt for pj_ in pl_.get("p", []))
+            T_, hits_ = f.forward_taint(_is_read, barrier=lambda c_: c_ is not None and (short_path(c_.best) == "GenerationCache::compute_hash" or c_.name == "from_residual"))   # (`?`: the error exit carries no text of a generated file)
+            leaks_ = [c_ for c_, _ in hits_ if is_fs_mut(c_) or short_path(c_.path) == "Context::insert" or (c_.trait or "").startswith(("std::io::Write", "std::fmt::Write"))]
+            digested_ = any(short_path(c_.best) == "GenerationCache::compute_hash" for c_, _ in hits_)
+            if digested_ and 0 not in T_ and not leaks_ and fid.startswith("tauri_typegen::build::generation_cache::"):
+                r3.ok("%s reads %s.line_number into the regeneration digest only" % (short_path(fid), short_path(adt)))
+                continue
             if U._reaches_sink_excluding_stdout(fid) or any(is_sink_call(c) for c in f.calls):
                 r3.bad(V(r3.id, fid, "reads:%s.line_number" % short_path(adt),
                          "%s reads %s.line_number and builds output text: generated content depends on source layout" % (fid, adt),
